@@ -268,7 +268,8 @@ def run(prog, tier):
     free = {n.id for st in tp.body for n in ast.walk(st) if isinstance(n, ast.Name) and isinstance(n.ctx, ast.Load)}
     params = {a.arg for a in tp.args.args}
     assigned = {n.id for n in ast.walk(tp) if isinstance(n, ast.Name) and isinstance(n.ctx, ast.Store)}
-    globals_read = sorted(free - params - assigned - {"range", "_"})
+    import builtins
+    globals_read = sorted(free - params - assigned - set(dir(builtins)) - {"_"})       # builtins are not module state
     if globals_read:
         okw = False
         why.append(f"worker reads module-level names {globals_read}")
